@@ -270,6 +270,10 @@ def run(ck, F):
     for inst, ok, msg, loc, fid in arena.owned_bytes(F):
         ck.check(R7, inst, ok, msg, loc=loc, fn=fid)
 
+    # a spelling, once written, is not overwritten by a later allocation: each allocation stays inside its own block
+    import c03 as _c03
+    _c03.arena_bounds(ck, F, prefix='C05')
+
     # what a node refers to outlives the call that built it
     R_cs = ck.rule('C05.no-reference-to-call-storage', 'no reference or pointer member of an object that outlives the factory call (a node in a pool or a '
                    'table) designates storage of the call itself -- a parameter taken by value, a local or a temporary: after the call '
